@@ -38,12 +38,15 @@ prop('C02', technique='contract-based deductive verification: two-implementation
                   'DOUBLE/LONG (thorough tier decides those four pairs; the others were not decided within ten minutes per case)'])
 prop('C03', technique='contract-based deductive verification of typing contracts (instructions, expression generators, device protocols)',
      explanation='every instruction/expression contract: typed operands in, a cell of the static result type out, or a language-level trap; '
-                 'device operations leave exactly the cells the generators expect; frame operands cover generator temporaries',
+                 'device operations leave exactly the cells the generators expect; frame operands cover generator temporaries; '
+                 'bounded stand-in run.bounded: accepted template programs run natively never stop with a machine-level fault',
      assumptions=['typed operand stacks are established inductively by the generator lemmas'],
      not_covered=['arbitrary GOTO into templates', 'GOSUB/RETURN pairing across arbitrary control flow (the single pair is under contract)', 'DIM generators'])
 prop('C07', technique='contract-based deductive verification: safety VCs (only Trapped/ZeroDivisionError escape an instruction)',
-     explanation='safety halves of the instruction contracts and tick/_trap contracts',
-     assumptions=['host signal delivery between bytecodes is an atomic flag write'], not_covered=['float **'])
+     explanation='safety halves of the instruction contracts and tick/_trap contracts; string, call/ret/jump, bounds and small-device '
+                 'instructions; bounded stand-in run.bounded: template programs run natively for up to 4000 instructions raise no host exception',
+     assumptions=['host signal delivery between bytecodes is an atomic flag write'],
+     not_covered=['the ^ instruction (_exec_exp): Python exceptions escape it (known finding KF-C07-exponent-host-exceptions)'])
 prop('C04', technique='contract-based deductive verification: loop invariants over symbolic declaration lists, nonlinear '
                       'integer VCs for array addressing, frame conditions as obligations over recorded stores',
      explanation='layout arithmetic (memlayout), array addressing/initialisation, reads of unset cells, stores, references and '
@@ -110,7 +113,8 @@ prop('C08', technique='contract-based deductive verification: marker-erasure lem
 prop('C16', technique='contract-based deductive verification (string VCs) for INTEGER and LONG; bounded native boundary-value enumeration for '
                       'SINGLE and DOUBLE, labelled bounded',
      explanation='format_number proved to yield the plain decimal text with leading blank or minus for every INTEGER and LONG; STR$ and PRINT '
-                 'proved to call it with the same (value, type); float digit generation (repr, round) only checked on enumerated values',
+                 'proved to call it with the same (value, type); float digit generation (repr, round) only checked on enumerated values; '
+                 'read-back: int()/float() of every INTEGER text, VAL on a sample, INPUT and READ devices at the type limits (bounded)',
      assumptions=['CPython repr(float), round(x, n), int(text), float(text)'],
      not_covered=['SINGLE/DOUBLE digit correctness beyond the enumerated values', 'QBASIC vs Python numeral syntax for READ/INPUT/VAL'])
 prop('C12', technique='contract-based deductive verification of the stopping predicates and run loop (loop invariant, tick by frame contract), '
@@ -129,13 +133,16 @@ prop('C13', technique='contract-based deductive verification of the evaluator ad
 prop('C05', technique='contract-based deductive verification of the checking functions over the completely enumerated finite shape domain '
                       '(real pass objects, stand-in nodes), rule table written from the language rules',
      explanation='each process_*_pre raises CompileError with the rule\'s category iff the shape violates the rule and the diagnostic carries the '
-                 'offending node\'s position; operator type-mismatch rejection over every operator and operand type pair',
+                 'offending node\'s position; operator type-mismatch rejection over every operator and operand type pair; operand kinds of FOR bounds, '
+                 'DIM bounds, SELECT selector, READ/INPUT targets and the eleven device statements, with the checking function looked up the way '
+                 'the compiler does (a statement without one fails)',
      assumptions=['every node is visited by every pass (tree traversal / surgery is not covered)'],
      not_covered=['rule violations detected by the grammar', 'argument matching of calls', 'block matching in parse_string beyond the enumerated shapes'])
 prop('C06', technique='contract-based deductive verification: safety obligations (only SyntaxError/CompileError may escape) on the pass functions, '
                       'folder, optimiser and assembler contracts; generators on the shapes the passes accept',
      explanation='no checking function, folder, peephole rule or assembler path raises anything but a compile error for the enumerated shapes and all '
-                 'operand values; what the passes accept the listed generators can generate',
+                 'operand values; what the passes accept the listed generators can generate; bounded stand-in compile.bounded: small programs from '
+                 'statement templates x expression fillers go through the real Compiler.compile and assembler and only SyntaxError / CompileError escape',
      assumptions=['token shapes handed to parse actions are those of the grammar rules (pyparsing)'],
      not_covered=['the pyparsing grammar and its parse actions', 'termination', 'generators not under contract (DIM, CONST, static array initialisation)', 'record assignment (known finding)'])
 prop('C20', level='other', technique='contract-style frame/effect obligations (reads/assigns analysis over the AST of the real modules), an order-independence '
